@@ -163,6 +163,14 @@ def check_class(mod: CF.Module, classes: list[dict], k: int, lab: Labels) -> lis
         got = list(cls.get_property_fields(skip_id, skip_origin, skip_cid, skip_nc, skip_ni))
         require([g.name for g in got] == exp and all(g is fobj[g.name] for g in got), "get_property_fields",
                 f"C{k} flags(id,origin,content_id,non_compare,non_init)={flags}: {[g.name for g in got]} expected {exp}")
+        # asking again (also while an earlier answer is only partly consumed) gives the same answer
+        partial = iter(cls.get_property_fields(skip_id, skip_origin, skip_cid, skip_nc, skip_ni))
+        next(partial, None)
+        again = list(cls.get_property_fields(skip_id, skip_origin, skip_cid, skip_nc, skip_ni))
+        require([g.name for g in again] == exp, "get_property_fields-asked-again",
+                f"C{k} flags={flags}: second answer {[g.name for g in again]} expected {exp}")
+        require([g.name for g in partial] == exp[1:], "get_property_fields-asked-again",
+                f"C{k} flags={flags}: the partly consumed first answer changed")
     for variant in range(3):
         inst, kw = make_instance(mod, cls, eff, variant)
         val = lambda f: getattr(inst, f["name"])  # noqa: E731
@@ -190,12 +198,24 @@ def check_class(mod: CF.Module, classes: list[dict], k: int, lab: Labels) -> lis
                 require(ok, "get_properties",
                         f"C{k} variant {variant} flags(id,origin,content_id,non_compare,non_init)={flags} sort_keys={sort_keys}: "
                         f"{[g[1].name for g in got]} expected {exp}")
+                if flags in ((False,) * 5, (True, False, True, False, True)):
+                    partial = iter(inst.get_properties(skip_id, skip_origin, skip_cid, skip_nc, skip_ni, sort_keys=sort_keys))
+                    next(partial, None)
+                    again = list(inst.get_properties(skip_id, skip_origin, skip_cid, skip_nc, skip_ni, sort_keys=sort_keys))
+                    require([g[1].name for g in again] == exp and [g[1].name for g in partial] == exp[1:],
+                            "get_properties-asked-again", f"C{k} variant {variant} flags={flags} sort_keys={sort_keys}")
                 lab.count("flag-combinations")
             ordered = sorted(kids, key=lambda f: f["name"]) if sort_keys else kids
             raw = list(inst.iter_child_fields(sort_keys=sort_keys))
             require([f.name for _, f in raw] == [f["name"] for f in ordered]
                     and all(v is val(f) and fo is fobj[f["name"]] for (v, fo), f in zip(raw, ordered)),
                     "iter_child_fields", f"C{k} variant {variant} sort_keys={sort_keys}: {[f.name for _, f in raw]}")
+            partial = iter(inst.iter_child_fields(sort_keys=sort_keys))
+            next(partial, None)
+            again = list(inst.iter_child_fields(sort_keys=sort_keys))
+            require([f.name for _, f in again] == [f["name"] for f in ordered]
+                    and [f.name for _, f in partial] == [f["name"] for f in ordered][1:], "iter_child_fields-asked-again",
+                    f"C{k} variant {variant} sort_keys={sort_keys}")
             exp_nodes = []
             for f in ordered:
                 v = val(f)
@@ -208,6 +228,12 @@ def check_class(mod: CF.Module, classes: list[dict], k: int, lab: Labels) -> lis
                 g[0] is e[0] and g[1] is fobj[e[1]] and g[2] == e[2] for g, e in zip(got_wf, exp_nodes)),
                 "get_child_nodes_with_field",
                 f"C{k} variant {variant} sort_keys={sort_keys}: {[(g[1].name, g[2]) for g in got_wf]} expected {[(e[1], e[2]) for e in exp_nodes]}")
+            partial = iter(inst.get_child_nodes_with_field(sort_keys=sort_keys))
+            next(partial, None)
+            again = list(inst.get_child_nodes_with_field(sort_keys=sort_keys))
+            require(len(again) == len(exp_nodes) and all(g[0] is e[0] for g, e in zip(again, exp_nodes))
+                    and [id(g[0]) for g in partial] == [id(e[0]) for e in exp_nodes[1:]],
+                    "get_child_nodes_with_field-asked-again", f"C{k} variant {variant} sort_keys={sort_keys}")
             got_n = list(inst.get_child_nodes(sort_keys=sort_keys))
             require(len(got_n) == len(exp_nodes) and all(g is e[0] for g, e in zip(got_n, exp_nodes)), "get_child_nodes",
                     f"C{k} variant {variant} sort_keys={sort_keys}: {len(got_n)} nodes, expected {len(exp_nodes)}")
